@@ -111,6 +111,10 @@ type Config struct {
 	Budget    uint64
 	Replay    []Switch
 	MapSalt   uint64
+	// RecordBoosted asks for the list of boosted decision points (sync,
+	// atomic and callback boundaries) each task passed: the positions the
+	// two-preemption systematic search places its switches at.
+	RecordBoosted bool
 }
 
 // Stats is what a run reports back.
@@ -135,6 +139,16 @@ type Stats struct {
 	// LocalMax[t][o] is the number of decision points task t passed inside its
 	// op o (o < 8): the positions a bounded systematic search can preempt at.
 	LocalMax [MaxTasks][8]uint64
+	// BoostedPts is filled only when Config.RecordBoosted is set.
+	BoostedPts []BoostPt `json:",omitempty"`
+}
+
+// BoostPt names one boosted decision point: the Local-th decision point of
+// task Task inside its op Op.
+type BoostPt struct {
+	Task  int32
+	Op    int32
+	Local uint64
 }
 
 var (
@@ -260,6 +274,9 @@ func point(site uint32, boosted bool) {
 		st.LocalMax[cur][t.op] = t.local
 	}
 	st.TraceHash = (st.TraceHash ^ (uint64(site)<<4 | uint64(cur))) * 0x100000001b3
+	if boosted && cfg.RecordBoosted && t.op >= 0 && len(st.BoostedPts) < 4096 {
+		st.BoostedPts = append(st.BoostedPts, BoostPt{Task: int32(cur), Op: int32(t.op), Local: t.local})
+	}
 	if steps > cfg.Budget {
 		die(ExitBudget, "budget", "step budget exceeded")
 	}
